@@ -254,9 +254,11 @@ def check_seeds_and_stats(fx, R):
         if okloop:
             R.holds('B7', '%s::compute:loop' % cname, 'visits every point once', fx.rel(f['loc']), 'E-STATE')
         else:
-            start = [const_value(v.get('init')) for L in loops for v in ((L.get('init') or {}).get('vars') or [])[:1]]
-            if start and isinstance(start[0], (int, float)) and start[0] > 0:
-                R.violated('B7', '%s::compute:loop' % cname, 'the accumulation loop starts at index %s: the first points never reach the extrema / mean' % start[0], fx.rel(f['loc']), 'E-STATE')
+            bv = compute_by_value(fx, f)
+            if bv is not None and bv[0] == 'violated':
+                R.violated('B7', 'PointSetPreconditioner::compute:value', bv[1] + ' [%s]' % cname, fx.rel(f['loc']), 'E-STEP')
+            elif bv is not None and bv[0] == 'holds':
+                R.holds('B7', '%s::compute:loop' % cname, bv[1], fx.rel(f['loc']), 'E-STEP')
             else:
                 cov = loop_coverage(f, loops[0]) if len(loops) == 1 else None
                 if cov and cov[0] == 'violated':
@@ -607,6 +609,50 @@ def to_sym(s, env):
     return None
 
 
+def compute_by_value(fx, f):
+    """compute() run (E-STEP: real loops over concrete sequences, one coordinate of every point) on witness sets of 1..9 points whose extreme values sit at the first, the last and an interior position,
+    in every octant: afterwards the stored minimum, maximum and mean must be the true ones.  None when not runnable."""
+    from .. import mini
+    from .C09 import _sizes
+    sets_ = []
+    for n_ in (1, 2, 3, 4, 5, 6, 7, 9):
+        base = [float((k_ * 7) % 5) - 2.0 for k_ in range(n_)]
+        for pos in sorted({0, n_ - 1, n_ // 2}):
+            for ext in (50.0, -50.0):
+                pts = list(base)
+                pts[pos] = ext
+                sets_.append(pts)
+        sets_.append([-3.0 - k_ for k_ in range(n_)])          # all negative
+    pn = f['params'][0]['name']
+    n_ok = 0
+    for pts in sets_:
+        S = mini.list_hooks(mini.Step(deep_unwrap), loops=2000)
+
+        def set_const(t, env, S=S):
+            env[S.key(t[1])] = S.ev(t[2], env) if len(t) > 2 else 0.0
+            return 0
+        S.hooks['.setConstant'] = set_const
+        S.hooks['.fill'] = set_const
+        S.hooks['.setZero'] = lambda t, env, S=S: env.__setitem__(S.key(t[1]), 0.0) or 0
+        S.hooks['.head'] = lambda t, env, S=S: S.ev(t[1], env)
+        S.hooks['.maxCoeff'] = lambda t, env, S=S: S.ev(t[1], env)
+        env = {pn: list(pts), 'this.pointSetMin_': 0.0, 'this.pointSetMax_': 0.0, 'this.pointSetMean_': 0.0, 'this.scale_': 1.0, 'this.translation_': 0.0, 'CARTESIAN_DIM': 1}
+        try:
+            S.call(f['body'], env)
+        except (mini.Unsupported, TypeError, KeyError, ZeroDivisionError, IndexError):
+            return None
+        got = (env.get('this.pointSetMin_'), env.get('this.pointSetMax_'), env.get('this.pointSetMean_'))
+        if not all(isinstance(g_, (int, float)) for g_ in got):
+            return None
+        want = (min(pts), max(pts), sum(pts) / len(pts))
+        if abs(got[0] - want[0]) > 1e-9 or abs(got[1] - want[1]) > 1e-9 or abs(got[2] - want[2]) > 1e-9:
+            which = 'minimum' if abs(got[0] - want[0]) > 1e-9 else 'maximum' if abs(got[1] - want[1]) > 1e-9 else 'mean'
+            return ('violated', 'running compute() on the %d-point set with coordinate values %s leaves minimum %g, maximum %g, mean %g; the true ones are %g, %g, %g: the %s is wrong (sets of 1..1000 points '
+                    'of any parity, with their extreme at any position, are inside the quantifier)' % (len(pts), pts, got[0], got[1], got[2], want[0], want[1], want[2], which))
+        n_ok += 1
+    return ('holds', 'compute() run on %d witness sets (1..9 points, extreme value first / last / interior, both signs): minimum, maximum and mean are the true ones' % n_ok)
+
+
 def loop_coverage(f, L, cont='points', sizes=(1, 2, 3, 7, 100, 511, 512, 513, 777, 1000)):
     """E-STEP: the loop control (and the integer declarations in front of it) evaluated on witness set sizes; the subscripts of `cont` must be 0..N-1"""
     from .. import mini
@@ -930,19 +976,29 @@ def check_interval(fx, R):
                         return x
                     return rep(t)
                 step_verdict = ('holds', 0)
-                for (il, iu) in ((0.0, 2.0), (2.0, 5.0), (0.0, 5.0), (1.5, 2.5), (4.0, 6.0), (-3.0, -2.0), (4.0, 4.0), (0.0, 0.0), (2.0, 2.0), (1.0, 1.0), (3.0, 3.0)):
-                    env = {'this.lower_': 1.0, 'this.upper_': 3.0, 'ilo': il, 'ihi': iu}
+                sname_ = 'float' if '<float' in (fc.get('cls') or '') else 'double'
+                BIG = mini.MACHINE[sname_]['max']
+                # receivers: a bounded interval, and intervals that are unbounded along the axis (both extremities at the largest number: a default-constructed interval, a region of interest without a
+                # limit along one axis) or half-bounded - every pair of intervals is inside the quantifier
+                pairs_ = [((1.0, 3.0), (il, iu)) for (il, iu) in ((0.0, 2.0), (2.0, 5.0), (0.0, 5.0), (1.5, 2.5), (4.0, 6.0), (-3.0, -2.0), (4.0, 4.0), (0.0, 0.0), (2.0, 2.0), (1.0, 1.0), (3.0, 3.0))]
+                pairs_ += [((-BIG, BIG), (20.0, 30.0)), ((-BIG, 3.0), (0.0, 5.0)), ((1.0, BIG), (-2.0, 2.0)), ((-BIG, BIG), (-BIG, BIG))]
+                for ((rl, ru), (il, iu)) in pairs_:
+                    env = {'this.lower_': rl, 'this.upper_': ru, 'ilo': il, 'ihi': iu}
                     try:
                         stp_ = mini.Step(acc_names)
                         stp_.fallback = mini.inliner(fx, stp_, cls=fc.get('cls'))          # include() written with the class's own predicates (inside(), width()...)
+                        stp_.hooks['.select'] = lambda t, env_, stp_=stp_: (stp_.ev(t[2], env_) if stp_.ev(t[1], env_) else stp_.ev(t[3], env_)) if len(t) == 4 else (_ for _ in ()).throw(mini.Unsupported('select'))
                         stp_.call(fc['body'], env)
                     except mini.Unsupported as e:
                         step_verdict = ('undecided', str(e))
                         break
-                    want_ = (min(1.0, il), max(3.0, iu))
+                    want_ = (min(rl, il), max(ru, iu))
                     if (env['this.lower_'], env['this.upper_']) != want_:
-                        step_verdict = ('violated', 'including [%g, %g]%s into [1, 3] leaves [%g, %g]; the hull is [%g, %g]' % (
-                            il, iu, ' (zero width: a point, which the quantifier names)' if il == iu else '', env['this.lower_'], env['this.upper_'], want_[0], want_[1]))
+                        fmt_ = lambda v_: 'max' if v_ == BIG else '-max' if v_ == -BIG else '%g' % v_
+                        step_verdict = ('violated', 'including [%s, %s]%s into [%s, %s] leaves [%s, %s]; the hull is [%s, %s]%s' % (
+                            fmt_(il), fmt_(iu), ' (zero width: a point, which the quantifier names)' if il == iu else '', fmt_(rl), fmt_(ru), fmt_(env['this.lower_']), fmt_(env['this.upper_']), fmt_(want_[0]), fmt_(want_[1]),
+                            ' - a receiver that is unbounded along the axis (the default-constructed interval, a region without a limit along one axis) SHRINKS to the included interval: the result no longer '
+                            'contains the receiver' if (rl, ru) == (-BIG, BIG) else ''))
                         break
                     step_verdict = ('holds', step_verdict[1] + 1)
                 if step_verdict[0] == 'holds':
